@@ -747,6 +747,57 @@ def _self_attrs(e) -> frozenset:
     return frozenset(x.attr for x in ast.walk(e) if isinstance(x, ast.Attribute) and is_name(x.value, 'self'))
 
 
+def _expand_field_loop(p, f: Func, cfg, ix, store, keyvar):
+    """Fields written by `obj[<keyvar>] = <value>` inside `for <keyvar> in (<str consts>)`
+    where <value> is getattr(self, <keyvar>) (directly or through one local)."""
+    loops = [lp for lp in walk_self(f.node) if isinstance(lp, ast.For) and isinstance(lp.target, ast.Name) and lp.target.id == keyvar
+             and any(x is store for x in ast.walk(lp))]
+    if len(loops) != 1:
+        return None
+    lp = loops[0]
+    names = p.fold(f.module, lp.iter, None, f)
+    if not (isinstance(names, (tuple, list)) and names and all(isinstance(x, str) for x in names)):
+        return None
+
+    def is_getattr(e):
+        return (isinstance(e, ast.Call) and isinstance(e.func, ast.Name) and e.func.id == 'getattr' and len(e.args) >= 2
+                and is_name(e.args[0], 'self') and is_name(e.args[1], keyvar))
+
+    val = store.value
+    valvar = None
+    if isinstance(val, ast.Name):
+        binds = [a for a in walk_self(lp) if isinstance(a, ast.Assign) and any(is_name(t, val.id) for t in a.targets)]
+        if len(binds) == 1 and is_getattr(binds[0].value):
+            valvar = val.id
+        else:
+            return None
+    elif not is_getattr(val):
+        return None
+    nid = single(cfg.nodes_for(store), 'field store node', f.qual)
+    out = {}
+    for nm in names:
+        guards = set()
+        for (test, truth) in ix.facts(nid):
+            # tests on the loop-local value stand for tests on self.<nm>
+            def is_val(e):
+                return (valvar is not None and is_name(e, valvar)) or is_getattr(e)
+
+            if not any(is_val(x) for x in ast.walk(test)):
+                # the loop header itself / unrelated tests keep their text
+                if any(is_name(x, keyvar) for x in ast.walk(test)):
+                    continue
+                guards.add('%s is %s' % (short(test), truth))
+                continue
+            r_none = eval3(test, assume_none(is_val, True))
+            r_not = eval3(test, assume_none(is_val, False))
+            if r_none is None or r_not is None or r_none == r_not:
+                guards.add('self.%s: %s is %s' % (nm, short(test), truth))       # e.g. a truthiness test: not an `is None` test
+            else:
+                guards.add('self.%s is %sNone' % (nm, '' if r_none == truth else 'not '))
+        out[nm] = (frozenset(guards), frozenset([nm]), store)
+    return out
+
+
 def _dict_fields(run, f: Func):
     p = run.project
     cfg = cfg_of(f, p)
@@ -761,6 +812,12 @@ def _dict_fields(run, f: Func):
             for t in n.targets:
                 if isinstance(t, ast.Subscript) and is_name(t.value, obj):
                     k = t.slice
+                    if isinstance(k, ast.Name):
+                        # `for name in ('description', 'code', ...): value = getattr(self, name); if <guard on value>: obj[name] = value`
+                        expanded = _expand_field_loop(p, f, cfg, ix, n, k.id)
+                        if expanded is not None:
+                            fields.update(expanded)
+                            continue
                     if not (isinstance(k, ast.Constant) and isinstance(k.value, str)):
                         raise UnknownIdiom('%s: field key %s' % (f.qual, short(k)))
                     nid = single(cfg.nodes_for(n), 'field store node', f.qual)
